@@ -11,6 +11,7 @@ equal hashes.
 from __future__ import annotations
 
 import itertools
+import operator
 from decimal import Decimal
 from fractions import Fraction
 
@@ -30,7 +31,7 @@ ASSUMPTIONS = [
     "the order axioms are demanded",
     "int() = truncation toward zero; float() = correctly rounded nearest double of the exact value",
 ]
-REQUIRED_COUNTERS = ["M-pref.+", "M-pref.*", "M-pref.cmp<", "M-pref.scale", "M-pref.int", "M-pref.float", "driver.axioms"]
+REQUIRED_COUNTERS = ["M-pref.+", "M-pref.*", "M-pref.r-", "M-pref.cmp<", "M-pref.scale", "M-pref.int", "M-pref.float", "driver.axioms", "driver.plain-number-ops"]
 MIN_EVALS = 2000
 MIN_NONTRIVIAL = 1000
 
@@ -39,6 +40,10 @@ FIXED_MANTISSAS = [
     "1.5", "1500", "0.1", "3", "7E+5", "123456789", "9999999999999999999999999", "1.234567890123456789012345",
     "-0.3333333333333333333333333", "1E-7", "25", "-2.50", "-0", "0.0", "-0.000", "0E+3", "1.0", "1.000", "1E+3", "10E+2",
 ]
+
+
+NUMBERS = [3, Decimal("0.25"), "1e3", -7, 0, 2.5, 0.1, Decimal(0.1), 2.0 ** 60, Decimal(2 ** 60), 1e23, Decimal(int(1e23)),
+           1.0000000000000002e17, Decimal(int(1.0000000000000002e17)), Decimal("1E+3"), Decimal("-0"), 10 ** 30, "-2.50"]
 
 
 def rand_decimal(rng) -> Decimal:
@@ -192,10 +197,25 @@ def run(ctx, rec):
         # number * Prefix and Prefixed * Prefix forms
         call(rec, "arith-raises:prefix*", f"{ma} * {pb.name}", {"kind": "prefixmul", "a": mpref.case_of(ma), "p": pb.name}, lambda: ma * pb)
         call(rec, "arith-raises:prefix*", f"({mpref._desc(a)}) * {pb.name}", {"kind": "prefixmul", "a": mpref.case_of(a), "p": pb.name}, lambda: a * pb)
-        # Prefixed (+|-|*) plain numbers
-        for other in (3, Decimal("0.25"), "1e3"):
-            call(rec, "arith-raises:+num", f"({mpref._desc(a)}) + {other!r}", {"kind": "num", "a": mpref.case_of(a), "b": mpref.case_of(other)}, lambda o=other: a + o)
-            call(rec, "arith-raises:*num", f"({mpref._desc(a)}) * {other!r}", {"kind": "num", "a": mpref.case_of(a), "b": mpref.case_of(other)}, lambda o=other: a * o)
+        # Prefixed (+|-|*) plain numbers, in both operand orders (the reflected operators), compared too.  The list holds pairs
+        # that Python hashes and compares equal although they enter Prefixed differently (a float through its repr, the equal
+        # Decimal exactly): a float first, then "the same" Decimal
+        for other in NUMBERS:
+            c = {"kind": "num", "a": mpref.case_of(a), "b": mpref.case_of(other)}
+            da = mpref._desc(a)
+            rec.count("driver.plain-number-ops")
+            call(rec, "arith-raises:+num", f"({da}) + {other!r}", c, lambda o=other: a + o)
+            call(rec, "arith-raises:*num", f"({da}) * {other!r}", c, lambda o=other: a * o)
+            call(rec, "arith-raises:-num", f"({da}) - {other!r}", c, lambda o=other: a - o)
+            call(rec, "arith-raises:num+", f"{other!r} + ({da})", c, lambda o=other: o + a)
+            call(rec, "arith-raises:num*", f"{other!r} * ({da})", c, lambda o=other: o * a)
+            ok_r, r = call(rec, "arith-raises:num-", f"{other!r} - ({da})", c, lambda o=other: o - a)
+            ok_s, r2 = call(rec, "arith-raises:-num", f"({da}) - {other!r}", c, lambda o=other: a - o)
+            if ok_r and ok_s and mpref.exact(r) is not None and mpref.exact(r2) is not None and mpref.exact(r) != -mpref.exact(r2):
+                rec.violation("reflected-subtraction-wrong", f"{other!r} - ({da}) = {mpref._desc(r)} but ({da}) - {other!r} = {mpref._desc(r2)}", case=c)
+            for name, f in (("<", operator.lt), ("==", operator.eq), (">", operator.gt)):
+                call(rec, "cmp-raises", f"({da}) {name} {other!r}", c, lambda f=f, o=other: f(a, o))
+                call(rec, "cmp-raises", f"{other!r} {name} ({da})", c, lambda f=f, o=other: f(o, a))
     if not ctx.quick and ctx.shard == 0:
         from .. import suite
 
